@@ -133,6 +133,7 @@ type Sim struct {
 	rem                          *remote
 	remoteChecks                 int
 	restarts                     int
+	resurrections                int
 	wseqChecks                   int
 	forceSet                     []*simTable                    // table set of the next RunTxn (nested transactions)
 	forced                       *forcedOp                      // the next RunTxn performs exactly this operation and commits
@@ -958,6 +959,7 @@ func (s *Sim) Finish(nontrivial bool) {
 	s.R.Count("retained_wtxn_sequences_reranged", int64(s.wseqChecks))
 	s.R.Count("remote_queries_compared", int64(s.remoteChecks))
 	s.R.Count("db_restarts_with_open_iterators", int64(s.restarts))
+	s.R.Count("dead_objects_resurrected_under_the_collector", int64(s.resurrections))
 	if s.R.WantSample() {
 		tail := s.Log
 		if len(tail) > 45 {
